@@ -1,43 +1,11 @@
-// counterexamples for harness c10::c10_w0_ret_vec_n2 (property C10); replay: ./check C10 --replay <this file>
+// counterexamples for harness c10::c10_w0_out_vec_n2 (property C10); replay: ./check C10 --replay <this file>
 // features: c10
 #![allow(unused_imports)]
 use crate::c10::*;
 
-/// Test generated for harness `c10::c10_w0_ret_vec_n2` 
+/// Test generated for harness `c10::c10_w0_out_vec_n2` 
 ///
-/// Check for `assertion`: ""rolling2_apply_idx returned: every output slot written before assume_init""
-///
-/// # Warning
-///
-/// Concrete playback tests combined with stubs or contracts is highly
-/// experimental, and subject to change.
-///
-/// The original harness has stubs which are not applied to this test.
-/// This may cause a mismatch of non-deterministic values if the stub
-/// creates any non-deterministic value.
-/// The execution path may also differ, which can be used to refine the stub
-/// logic.
-
-#[test]
-fn kani_concrete_playback_c10_w0_ret_vec_n2_13157712349687317502() {
-    let concrete_vals: Vec<Vec<u8>> = vec![
-        // 0
-        vec![0, 0, 0, 0],
-        // 0
-        vec![0, 0, 0, 0],
-        // 0
-        vec![0, 0, 0, 0],
-        // 0
-        vec![0, 0, 0, 0],
-        // 3
-        vec![3],
-    ];
-    kani::concrete_playback_run(concrete_vals, c10_w0_ret_vec_n2);
-}
-
-/// Test generated for harness `c10::c10_w0_ret_vec_n2` 
-///
-/// Check for `assertion`: ""rolling_apply returned: every output slot written before assume_init""
+/// Check for `assertion`: ""rolling_apply_idx out: every output slot written before assume_init""
 ///
 /// # Warning
 ///
@@ -51,39 +19,7 @@ fn kani_concrete_playback_c10_w0_ret_vec_n2_13157712349687317502() {
 /// logic.
 
 #[test]
-fn kani_concrete_playback_c10_w0_ret_vec_n2_2159689926822512810() {
-    let concrete_vals: Vec<Vec<u8>> = vec![
-        // 0
-        vec![0, 0, 0, 0],
-        // 0
-        vec![0, 0, 0, 0],
-        // 0
-        vec![0, 0, 0, 0],
-        // 0
-        vec![0, 0, 0, 0],
-        // 0
-        vec![0],
-    ];
-    kani::concrete_playback_run(concrete_vals, c10_w0_ret_vec_n2);
-}
-
-/// Test generated for harness `c10::c10_w0_ret_vec_n2` 
-///
-/// Check for `assertion`: ""rolling_apply_idx returned: every output slot written before assume_init""
-///
-/// # Warning
-///
-/// Concrete playback tests combined with stubs or contracts is highly
-/// experimental, and subject to change.
-///
-/// The original harness has stubs which are not applied to this test.
-/// This may cause a mismatch of non-deterministic values if the stub
-/// creates any non-deterministic value.
-/// The execution path may also differ, which can be used to refine the stub
-/// logic.
-
-#[test]
-fn kani_concrete_playback_c10_w0_ret_vec_n2_7737048279810549893() {
+fn kani_concrete_playback_c10_w0_out_vec_n2_4562246288071666034() {
     let concrete_vals: Vec<Vec<u8>> = vec![
         // 0
         vec![0, 0, 0, 0],
@@ -96,12 +32,12 @@ fn kani_concrete_playback_c10_w0_ret_vec_n2_7737048279810549893() {
         // 1
         vec![1],
     ];
-    kani::concrete_playback_run(concrete_vals, c10_w0_ret_vec_n2);
+    kani::concrete_playback_run(concrete_vals, c10_w0_out_vec_n2);
 }
 
-/// Test generated for harness `c10::c10_w0_ret_vec_n2` 
+/// Test generated for harness `c10::c10_w0_out_vec_n2` 
 ///
-/// Check for `assertion`: ""rolling_custom returned: every output slot written before assume_init""
+/// Check for `assertion`: ""rolling2_apply_idx out: every output slot written before assume_init""
 ///
 /// # Warning
 ///
@@ -115,7 +51,39 @@ fn kani_concrete_playback_c10_w0_ret_vec_n2_7737048279810549893() {
 /// logic.
 
 #[test]
-fn kani_concrete_playback_c10_w0_ret_vec_n2_1413893524331456767() {
+fn kani_concrete_playback_c10_w0_out_vec_n2_10512371621843160882() {
+    let concrete_vals: Vec<Vec<u8>> = vec![
+        // 0
+        vec![0, 0, 0, 0],
+        // 0
+        vec![0, 0, 0, 0],
+        // 0
+        vec![0, 0, 0, 0],
+        // 0
+        vec![0, 0, 0, 0],
+        // 3
+        vec![3],
+    ];
+    kani::concrete_playback_run(concrete_vals, c10_w0_out_vec_n2);
+}
+
+/// Test generated for harness `c10::c10_w0_out_vec_n2` 
+///
+/// Check for `assertion`: ""rolling_custom out: every output slot written before assume_init""
+///
+/// # Warning
+///
+/// Concrete playback tests combined with stubs or contracts is highly
+/// experimental, and subject to change.
+///
+/// The original harness has stubs which are not applied to this test.
+/// This may cause a mismatch of non-deterministic values if the stub
+/// creates any non-deterministic value.
+/// The execution path may also differ, which can be used to refine the stub
+/// logic.
+
+#[test]
+fn kani_concrete_playback_c10_w0_out_vec_n2_812950569589883745() {
     let concrete_vals: Vec<Vec<u8>> = vec![
         // 0
         vec![0, 0, 0, 0],
@@ -128,12 +96,12 @@ fn kani_concrete_playback_c10_w0_ret_vec_n2_1413893524331456767() {
         // 4
         vec![4],
     ];
-    kani::concrete_playback_run(concrete_vals, c10_w0_ret_vec_n2);
+    kani::concrete_playback_run(concrete_vals, c10_w0_out_vec_n2);
 }
 
-/// Test generated for harness `c10::c10_w0_ret_vec_n2` 
+/// Test generated for harness `c10::c10_w0_out_vec_n2` 
 ///
-/// Check for `assertion`: ""rolling2_apply returned: every output slot written before assume_init""
+/// Check for `assertion`: ""rolling2_apply out: every output slot written before assume_init""
 ///
 /// # Warning
 ///
@@ -147,7 +115,7 @@ fn kani_concrete_playback_c10_w0_ret_vec_n2_1413893524331456767() {
 /// logic.
 
 #[test]
-fn kani_concrete_playback_c10_w0_ret_vec_n2_7772645628389453548() {
+fn kani_concrete_playback_c10_w0_out_vec_n2_15802252738239710638() {
     let concrete_vals: Vec<Vec<u8>> = vec![
         // 0
         vec![0, 0, 0, 0],
@@ -160,5 +128,37 @@ fn kani_concrete_playback_c10_w0_ret_vec_n2_7772645628389453548() {
         // 2
         vec![2],
     ];
-    kani::concrete_playback_run(concrete_vals, c10_w0_ret_vec_n2);
+    kani::concrete_playback_run(concrete_vals, c10_w0_out_vec_n2);
+}
+
+/// Test generated for harness `c10::c10_w0_out_vec_n2` 
+///
+/// Check for `assertion`: ""rolling_apply out: every output slot written before assume_init""
+///
+/// # Warning
+///
+/// Concrete playback tests combined with stubs or contracts is highly
+/// experimental, and subject to change.
+///
+/// The original harness has stubs which are not applied to this test.
+/// This may cause a mismatch of non-deterministic values if the stub
+/// creates any non-deterministic value.
+/// The execution path may also differ, which can be used to refine the stub
+/// logic.
+
+#[test]
+fn kani_concrete_playback_c10_w0_out_vec_n2_2200320869745469424() {
+    let concrete_vals: Vec<Vec<u8>> = vec![
+        // 0
+        vec![0, 0, 0, 0],
+        // 0
+        vec![0, 0, 0, 0],
+        // 0
+        vec![0, 0, 0, 0],
+        // 0
+        vec![0, 0, 0, 0],
+        // 0
+        vec![0],
+    ];
+    kani::concrete_playback_run(concrete_vals, c10_w0_out_vec_n2);
 }
